@@ -34,4 +34,7 @@ VARIANTS = [
       "    start_time, _, end_time, _ = compute_bounds(geometry)\n\n    if (end_time <= clip.start_time + minimum_overlap) or (\n        start_time >= clip.start_time + clip.duration - minimum_overlap", None),
     # F24: the pre-repair form
     V("temporal-overlap-not-exported(F24)", "src/soundevent/geometry/__init__.py", "    have_temporal_overlap,\n", "", "R12.6"),
+    # G.12
+    V("negative-absolute-threshold-rejected(G.12)", "src/soundevent/geometry/operations.py", "    if min_relative_overlap is not None:\n        if min_relative_overlap < 0 or min_relative_overlap > 1:", "    if min_absolute_overlap is not None and min_absolute_overlap < 0:\n        raise ValueError(\"The minimum absolute overlap must not be negative.\")\n\n    if min_relative_overlap is not None:\n        if min_relative_overlap < 0 or min_relative_overlap > 1:", "G.12"),
+    V("zero-width-interval-rejected(G.12)", "src/soundevent/geometry/operations.py", "    if min_relative_overlap is not None:\n        if min_relative_overlap < 0 or min_relative_overlap > 1:", "    if interval1[0] == interval1[1]:\n        raise ValueError(\"Empty interval.\")\n\n    if min_relative_overlap is not None:\n        if min_relative_overlap < 0 or min_relative_overlap > 1:", "G.12"),
 ]
